@@ -725,9 +725,33 @@ def compiled_and_judge(rep, prop, cases, family, flavor, want, keep=None, enforc
         rep.sample({"family": family, "case": c})
 
 
+def many_group_cases(rng, n):
+    """up to 8 bind groups (the wgpu maximum), declared in shuffled / interleaved order with sparse indices"""
+    cases = []
+    kinds = [F.VEC4, {"k": "tex", "class": "sampled", "dim": "2d", "kind": "f32"}, {"k": "sampler", "cmp": False}, {"k": "scalar", "s": "u32"},
+             {"k": "tex", "class": "storage", "dim": "2d", "format": "rgba8unorm", "access": "write"}]
+    for i in range(n):
+        ng = rng.randint(4, 8)
+        decls = []
+        for g in range(ng):
+            for b in rng.sample([0, 1, 2, 5, 9, 31, 100], rng.randint(1, 3)):
+                decls.append((g, b))
+        rng.shuffle(decls)
+        gl = []
+        for j, (g, b) in enumerate(decls):
+            ty = kinds[(i + j) % len(kinds)]
+            sp = "handle" if ty["k"] in ("tex", "sampler") else rng.choice(["uniform", "storage_r", "storage_rw"])
+            gl.append({"name": "v%d_%d" % (g, b), "space": sp, "group": str(g), "binding": str(b), "ty": ty})
+        body = [{"k": "access", "g": x["name"], "how": "tex_dims" if x["ty"]["k"] == "tex" and x["ty"]["class"] == "sampled" else "tex_store" if x["ty"]["k"] == "tex" else "load"}
+                for x in gl if x["ty"]["k"] != "sampler" and rng.random() < 0.7]
+        S = {"structs": [], "globals": gl, "consts": [], "overrides": [], "functions": [], "entries": [{"name": "cs_main", "stage": "compute", "params": [], "body": body, "wg": ["1"]}]}
+        cases.append({"id": "mg-%04d" % i, "family": "bind-groups-many", "S": S, "opts": F.opts()})
+    return cases
+
+
 def sparse_group_cases(rng, n):
     """dense groups, sparse / unordered / interleaved bindings, all resource kinds (C04)"""
-    cases = []
+    cases = many_group_cases(rng, max(10, n // 6))
     for i in range(n):
         S = F.rand_shader(rng, n_fn=(0, 2), n_entry=(1, 3), n_res=(2, 9), depth=1, push=0.2, names=(i % 4 == 0))
         cases.append({"id": "bg-%05d" % i, "family": "bind-groups-random", "S": S, "opts": F.opts(enc=True, mv="glam")})
